@@ -45,6 +45,13 @@ fn first_diff(a: &str, b: &str) -> String {
 /// so this hides nothing from them.
 #[inline(never)]
 fn poison_stack(byte: u8) -> u64 {
+    use std::sync::OnceLock;
+    static OFF: OnceLock<bool> = OnceLock::new();
+    // under valgrind (as under Miri) definedness is tracked by the tool itself; the driver
+    // passes VKIT_NO_POISON there because 48 KiB of instrumented writes per call is slow
+    if *OFF.get_or_init(|| std::env::var_os("VKIT_NO_POISON").is_some()) {
+        return 0;
+    }
     if cfg!(miri) {
         // the interpreter tracks initialisation itself (and 48 KiB of writes per case is slow there)
         return 0;
